@@ -3,7 +3,8 @@
 //
 // case:  c17 <kind> <offlo> <offhi> <lalo> <lahi> <response> <signal>
 //        kind: w (wire response), p (pad response), x (other); floats are 16-hex-digit bit patterns
-// obs:   for every offset in offlo..=offhi, look_ahead in lalo..=lahi (offsets outer):
+// obs:   outcome class ("ok", or "panic" if any of the calls below panicked), then
+//        for every offset in offlo..=offhi, look_ahead in lalo..=lahi (offsets outer):
 //          "<off>.<la>=" nn ;  then "ls=" ls_deconvolution over the same grid ;
 //          kind p: "pad=" the real pad_deconvolution(signal) ;
 //          kind w: "wire=" the real wire_range_deconvolution of a single-wire block holding the signal
@@ -127,7 +128,8 @@ fn observe(kind: &str, g: (usize, usize, usize, usize), resp: &[f64], signal: &[
             s.push_str(" wire=response-of-case-line-is-not-the-wire-response");
         }
     }
-    s
+    // outcome class first: "panic" if any call panicked
+    format!("{} {s}", if s.contains("panic") { "panic" } else { "ok" })
 }
 
 // ---------------------------------------------------------------------------------------------
@@ -343,7 +345,7 @@ fn block_signals(first: usize, len: usize, seed: u64) -> Box<verif::WireSignals>
 }
 
 /// multi-wire block: one output channel per input channel (in ring order), output length = longest signal,
-/// outputs finite and >= 0
+/// outputs finite and >= 0; exact 2^k scaling of the whole block
 fn rel_block(first: usize, len: usize, seed: u64) -> Result<(), String> {
     if first >= 256 || len == 0 || len > 256 {
         return Err("bad case".into());
@@ -373,6 +375,20 @@ fn rel_block(first: usize, len: usize, seed: u64) -> Result<(), String> {
             return Err(format!("channel {j} is wire {w}"));
         }
         good(v, longest).map_err(|e| format!("wire {w}: {e}"))?;
+    }
+    // scaling every sample of the block by 2^k scales every output by exactly 2^k (Cholesky solve included)
+    let c = 2f64.powi((seed % 41) as i32 - 20);
+    let mut scaled = empty_wires();
+    for j in 0..len {
+        let w = (first + j) % 256;
+        scaled[w] = Some(ws[w].as_ref().unwrap().iter().map(|x| x * c).collect());
+    }
+    let o2 = catch(AssertUnwindSafe(|| verif::wire_range_deconvolution(&scaled, ranges[0]))).ok_or("panic (scaled)")?;
+    for ((w, v), (w2, v2)) in o.iter().zip(&o2) {
+        let want: Vec<f64> = v.iter().map(|x| x * c).collect();
+        if w != w2 || !same_bits(&want, v2) {
+            return Err(format!("wire {w}: outputs of the block scaled by {c:e} are not scaled exactly"));
+        }
     }
     Ok(())
 }
